@@ -72,6 +72,9 @@ async fn run_once(case: &SubCase, drop_at: Option<usize>, obs: &mut Obs) {
 			break;
 		}
 	}
+	if w.reused > 0 {
+		classes.insert("subscription-id-handed-out-again");
+	}
 	// never more than `cap` instances pending or active per connection
 	for ci in 0..w.conns.len() {
 		let held = w.held_permits(ci);
@@ -93,10 +96,10 @@ async fn run_once(case: &SubCase, drop_at: Option<usize>, obs: &mut Obs) {
 				continue;
 			}
 			for _ in 0..case.cap {
-				w.step(&H::Subscribe { conn: ci as u8, b: false }, true).await;
+				w.step(&H::Subscribe { conn: ci as u8, b: false, reuse: None }, true).await;
 			}
 			// and one more is refused
-			w.step(&H::Subscribe { conn: ci as u8, b: true }, true).await;
+			w.step(&H::Subscribe { conn: ci as u8, b: true, reuse: None }, true).await;
 		}
 		classes.insert("slots-returned-check");
 	}
@@ -137,7 +140,7 @@ impl SubCheck for Bookkeeping {
 			.prop_map(|(conns, cap, string_ids, mut steps, sweep_drop, pre, lowlevel)| {
 				for _ in 0..pre {
 					steps.insert(0, H::Act { inst: 0, cmd: Cmd::Accept });
-					steps.insert(0, H::Subscribe { conn: 0, b: false });
+					steps.insert(0, H::Subscribe { conn: 0, b: false, reuse: None });
 				}
 				SubCase { conns, cap, buf: 1024, string_ids, steps, sweep_drop, lowlevel }
 			})
